@@ -18,6 +18,19 @@ let gen ~(tier : string) ~(seed : int) ~(emit : Sexp.t -> unit) : unit =
     else List.iter (fun t -> if Rng.chance r 1 6 then emit (case_step t)) tbl.(sz)
   done;
   List.iter (fun t -> emit (case_step t)) Gen_terms.lets2;
+  (* arithmetic and comparison at the corners of the machine-word ranges: every operator on every pair of
+     corner values (the implementation computes on arbitrary-precision integers; a word-sized fast path or a
+     conversion would show here), also negated and as operands one level down *)
+  let corners = List.map z_of_string
+      [ "0"; "1"; "-1"; "2"; "-2"; "7"; "-7"; "2147483647"; "2147483648"; "-2147483648"; "-2147483649"; "4294967295"; "4294967296";
+        "9223372036854775807"; "9223372036854775808"; "-9223372036854775807"; "-9223372036854775808"; "-9223372036854775809";
+        "18446744073709551615"; "18446744073709551616"; "-18446744073709551616"; "340282366920938463463374607431768211456" ] in
+  List.iter (fun a ->
+      emit (case_step (TNeg (TLit a)));
+      List.iter (fun b ->
+          List.iter (fun o ->
+              emit (case_step (TBin (o, TLit a, TLit b))))
+            Gen_terms.binops) corners) corners;
   (* steps of redex-rich random terms *)
   for _ = 1 to (if tier = "quick" then 4000 else 40000) do
     emit (case_step (Gen_terms.random_term r (4 + Rng.int r 30) 0 1))
